@@ -101,6 +101,7 @@ def search(ctx):
             if f0 == f0 and not (float(t.result.obj) <= f0 + (1e-9 * (1 + abs(f0)) if kw.get("h") else 0.0)):
                 ctx.fail("C04:worse-than-x0|" + so.context_tags(t, d), "soln.obj=%r > f(x0)=%r" % (t.result.obj, f0), {"seed": seed})
     ctx.cov["results_checked"] = n_checked
+    ss.rejection_budgets(ctx, lambda t, d, kw: so.c04(t, d, h=kw.get("h")) if t.result is not None else [], allow=ALLOW, mutate_cfg=mutate)
 
 
 def replay(payload):
@@ -112,7 +113,7 @@ def replay(payload):
     if len(rp["seed"]) == 5:
         _seed, prob, kw, d, t, _f = ss.replay_sweep(dfols, rp["seed"])
     else:
-      prob, kw, d, t = ss.gen_run(dfols, rp["seed"], allow=ALLOW, mutate_cfg=mutate)
+      prob, kw, d, t = ss.gen_run(dfols, rp["seed"], allow=ALLOW, mutate_cfg=mutate, maxfun_override=rp.get("maxfun_override"))
     res = so.c04(t, d, h=kw.get("h"))
     print("replay:", res if res else "property holds on this input now")
     return 1 if res else 0
